@@ -402,12 +402,24 @@ def check_convolve(prog, rep):
         at2 = _single(t1)
         if at2 is not None and at2.name == 'sum':
             jj, lo2, hi2, t2 = at2.args
-            want = Rat.atom(App('read', [kernel, w0 + ii - I, w1 + jj - J])) * Rat.atom(App('read', [data, ii, jj]))
             one = Rat.const(1)
-            b_ok = lo1 == _mx(I - w0, Rat.const(0)) and hi1 == _mn(I + w0 + one, shp(data, 0)) and \
-                lo2 == _mx(J - w1, Rat.const(0)) and hi2 == _mn(J + w1 + one, shp(data, 1))
-            b_ok = b_ok or (lo1 == I - w0 and hi1 == I + w0 + one and lo2 == J - w1 and hi2 == J + w1 + one)
-            ok = t2 == want and b_ok
+            # whatever the two summation variables count (absolute rows / columns, or offsets from the centre): the raster cell
+            # read is (ii + c0, jj + d0) with c0, d0 free of them, it runs over the window rows / columns, and the kernel entry
+            # read with it is the one at the same offset from the kernel's centre
+            rd = [a_ for a_ in t2.atoms() if isinstance(a_, App) and a_.name == 'read']
+            kr = [a_ for a_ in rd if a_.args[0] == kernel and len(a_.args) == 3]
+            dr = [a_ for a_ in rd if a_.args[0] == data and len(a_.args) == 3]
+            if len(kr) == 1 and len(dr) == 1 and t2 == Rat.atom(kr[0]) * Rat.atom(dr[0]):
+                A, B = kr[0].args[1:]
+                C, D = dr[0].args[1:]
+                c0, d0 = C - ii, D - jj
+                bound = set(ii.atoms()) | set(jj.atoms())
+                free = not (set(c0.atoms()) & bound) and not (set(d0.atoms()) & bound)
+                la, ha, lb, hb = lo1 + c0, hi1 + c0, lo2 + d0, hi2 + d0
+                b_ok = la == _mx(I - w0, Rat.const(0)) and ha == _mn(I + w0 + one, shp(data, 0)) and \
+                    lb == _mx(J - w1, Rat.const(0)) and hb == _mn(J + w1 + one, shp(data, 1))
+                b_ok = b_ok or (la == I - w0 and ha == I + w0 + one and lb == J - w1 and hb == J + w1 + one)
+                ok = free and b_ok and (A - C) == (w0 - I) and (B - D) == (w1 - J)
     rep.add('F3', f, entry, norm(s.node), s.node.lineno, ok and not s.guards,
             'the value must be the sum over the full window of kernel[w0+ii-i, w1+jj-j] * data[ii, jj] (correlation '
             'orientation, no transpose); got %s' % got)
